@@ -996,6 +996,40 @@ func (g *gen) fillHistory(kind int) {
 	s.done()
 }
 
+// a destination in every representation (linear, hash, direct) reloaded with a SINGLE-VALUED image, then written
+// out again and read back: the image it writes must be the single-valued form an independent decoder accepts
+// (state carried across ReadFrom calls - the old storage width - must not leak into it), and so on for
+// every pair of representations
+func (g *gen) reloadShapes(kind int) {
+	n := 4096
+	if kind == kBiomes {
+		n = 64
+	}
+	R := regSize[kind]
+	for _, kd := range boundaries[kind] {
+		for _, ks := range []int{1, 2, kd} {
+			kd, ks := min(kd, R), min(ks, R)
+			s := newScript(g.o, "reload-shapes."+kindName[kind], kind, n)
+			dv, sv := g.distinct(kind, kd), g.distinct(kind, ks)
+			s.initNew(0, sv[0])
+			s.initNew(1, dv[0])
+			for i := 1; i < ks; i++ {
+				s.set(0, g.pos(n), sv[i])
+			}
+			for i := 1; i < kd; i++ {
+				s.set(1, g.pos(n), dv[i])
+			}
+			s.xfer(0, 1, g.junk()) // the image of slot 0 into the used slot 1
+			s.sweep(1)
+			s.write(1)
+			s.specRead(1)
+			s.xfer(1, 0, g.junk()) // and what slot 1 writes now, back into slot 0
+			s.sweep(0)
+			s.done()
+		}
+	}
+}
+
 // off-domain arguments: only the model comparison and "a rejected call changes nothing" apply
 func (g *gen) hostileHistory(kind int) {
 	n := 4096
@@ -1362,6 +1396,8 @@ func main() {
 	for i := 0; i < o.N(150, 10); i++ {
 		g.upgradeHistory(kBiomes, false)
 	}
+	g.reloadShapes(kStates)
+	g.reloadShapes(kBiomes)
 	for i := 0; i < o.N(12, 10); i++ {
 		g.fillHistory(kStates)
 	}
